@@ -131,7 +131,7 @@ scenarios! {
                     let b = $T::new((1 + xs(s) % $lim) as $rep).unwrap();
                     let r = (a + b) * b - a;
                     let q = (r / b) % a + (a & b) + (a | b) + (a ^ b) + (b << $T::new(1).unwrap()) + (a >> $T::new(1).unwrap());
-                    mix(&mut acc, q.inner() as u64 + (a < b) as u64 + (a == b) as u64);
+                    mix(&mut acc, (q.inner() as u64).wrapping_add((a < b) as u64 + (a == b) as u64));
                 }};
             }
             for _ in 0..n {
@@ -236,7 +236,7 @@ scenarios! {
             for k in 0..n {
                 let x = fv(s) as f32;
                 mixf(&mut acc, a.push(x) as f64);
-                mix(&mut acc, v.push([k as i16, (k as i16).wrapping_neg()])[0] as u64 + b.push(k as u8) as u64);
+                mix(&mut acc, (v.push([k as i16, (k as i16).wrapping_neg()])[0] as u16 as u64).wrapping_add(b.push(k as u8) as u64));
                 if k % 5 == 0 { a.set_first(k); v.set_first(k + 1); }
                 mixf(&mut acc, *a.get(k) as f64 + a[k + 3] as f64);
                 *a.get_mut(k + 1) = 0.5;
